@@ -153,7 +153,8 @@ def end_to_end(ck, rng, thorough):
     import clirun
     import pelbuild
     nasty = ['\u2028', '\u2029', '\x85', '\x1c', '\r', '\x0b', '\x0c', '":', '\\', '"', ':', '{', 'é', '😀', '\x7f', 'x": y', '\t', '\\"', '  ']
-    env = apel.PluginEnv(allow=True).install()
+    # user-data parser modules of creator x: one fine, one whose call raises, one that returns nothing (error notes must not reach stdout)
+    env = apel.PluginEnv(allow=True, ud={'x1111': ('echo',), 'x2222': ('raises', 'boom "quoted": {x}'), 'x3333': ('none',)}).install()
     tmp = tempfile.mkdtemp(prefix='c06_')
     try:
         for rnd in range(12 if thorough else 4):
@@ -171,6 +172,14 @@ def end_to_end(ck, rng, thorough):
                 if rng.random() < 0.4:
                     secs.append(pelbuild.UD(bytes(rng.randrange(256) for _ in range(rng.randrange(1, 40))), sub=2))
                 files.append(('pel_%d_%d' % (rnd, i), pelbuild.pel(secs, eid=0x50000100 + 16 * rnd + i)))
+            if rnd == 0 or rng.random() < 0.3:
+                # a PEL whose printed text is longer than 64 KiB (one large section without a decoder), and one whose parser modules fail
+                big = bytes(rng.randrange(256) for _ in range(rng.choice([14000, 20000, 40000])))
+                files.append(('pel_%d_%08X_big' % (rnd, 0x50000900 + rnd), pelbuild.pel([pelbuild.UH(), pelbuild.UD(big, sub=9, comp=0x7777), pelbuild.UD(b'after the large one', sub=3)],
+                                                               eid=0x50000900 + rnd, obmc=900 + rnd)))
+                files.append(('pel_%d_%08X_failing_parsers' % (rnd, 0x50000A00 + rnd), pelbuild.pel([pelbuild.UH(), pelbuild.UD(b'abc', sub=7, comp=0x2222), pelbuild.UD(b'def', sub=7, comp=0x3333),
+                                                                           pelbuild.UD(b'ghi', sub=7, comp=0x1111), pelbuild.ED(b'jkl', creator=b'x', sub=7, comp=0x2222)],
+                                                                          eid=0x50000A00 + rnd, creator=b'x')))
             # files that cannot be decoded, listed between / after the good ones: they must not change what is printed for the list
             files.append(('pel_%d_0_cut' % rnd, files[0][1][:rng.choice([47, 60, 100])]))
             files.append(('pel_%d_zz_cut' % rnd, files[-2][1][:rng.choice([49, 73, 120])]))
@@ -197,6 +206,19 @@ def end_to_end(ck, rng, thorough):
                     ok = False
                 if not ok:
                     ck.fail('the text printed by -f does not parse back to the decoded document', rp | {'argv': ['-f', n], 'stdout': so[:300]}, 'e2e_file')
+            # -i / --bmc-id (the same document through the look-up modes)
+            for n in names:
+                for argv in (['-i', want[n][0]], ['--bmc-id', str(int.from_bytes(dict(files)[n][28:32], 'big'))]):
+                    if (argv[0] == '--bmc-id' and not n.endswith('_big')) or (argv[0] == '-i' and want[n][0].upper().replace('0X', '') not in n):
+                        continue
+                    so, se, sx = clirun.run_main(['-p', d] + argv)
+                    ck.count('end-to-end %s' % argv[0])
+                    try:
+                        ok = json.loads(so) == want[n][1]
+                    except Exception:
+                        ok = False
+                    if not ok:
+                        ck.fail('the text printed by %s does not parse back to the decoded document' % argv[0], rp | {'argv': argv, 'stdout': so[:300]}, 'e2e_lookup')
             # -a
             so, se, sx = clirun.run_main(['-p', d, '-a', '-E'])
             ck.case(key=('-a', tuple(files)))
